@@ -734,3 +734,21 @@ func (s *Sim) Close() {
 }
 
 var siteCache = newSiteCache()
+
+// StallTasks withholds the baton from every live task whose spawn site has the given prefix
+// for d of simulated time (the "slow or stalled node" fault aimed at one component).
+func (s *Sim) StallTasks(prefix string, d time.Duration) int {
+	n := 0
+	until := s.Now() + d
+	for _, t := range s.tasks {
+		if !t.Done() && strings.HasPrefix(t.Name, prefix) {
+			t.stallUntil = until
+			n++
+		}
+	}
+	if n > 0 {
+		s.Stats["fault.component_stall"]++
+		s.After(d, "stall-release", func() {})
+	}
+	return n
+}
